@@ -37,9 +37,9 @@ type ParamScenario struct {
 
 var ParamValues = map[string]string{
 	"bare": "abc", "space": "a b  c", "quote": `say "hi" now`, "eq": "k=v", "empty": "", "utf8": "héllo wörld", "bslash": `a\b\\c`, "squote": "it's",
-	"num": "42", "dash": "--flag", "comma": "x,y;z",
+	"num": "42", "dash": "--flag", "comma": "x,y;z", "spaceeq": "level a=1", "quoteeq": `say "x=1" now`,
 }
-var ParamClassOrder = []string{"bare", "space", "quote", "eq", "empty", "utf8", "bslash", "squote", "num", "dash", "comma"}
+var ParamClassOrder = []string{"bare", "space", "quote", "eq", "empty", "utf8", "bslash", "squote", "num", "dash", "comma", "spaceeq", "quoteeq"}
 
 var PayloadValues = map[string]string{
 	"word": "hello", "spaces": "a b   c", "padded": "  \n padded value \t\n", "newline": "line1\nline2\n\nline4", "quotes": `he said "yes" and 'no'`,
